@@ -74,7 +74,9 @@ Section Render.
     | SSaveLoad :: r => "n/a" :: fs_steps af r s
     end.
 
-  Definition join_sp (l : list string) : string := cat (map (fun x => append x " ") l).
+  (* separator: a backslash followed by a comma never occurs in a rendered token
+     (show_ustr writes a backslash only in front of six hex digits) *)
+  Definition join_sp (l : list string) : string := cat (map (fun x => append x "\,") l).
   Definition run_mem (af : list sfilter) (steps : list step) : string := join_sp (mem_steps af steps []).
   Definition run_fs (af : list sfilter) (steps : list step) : string := join_sp (fs_steps af steps []).
 
